@@ -213,6 +213,15 @@ fn gen_vops(rng: &mut Rng, cap: usize, n: usize) -> Vec<VOp> {
     ops
 }
 
+/// report an oracle failure unless one with the same key has been reported already
+fn report_once(st: &mut Stats, v: serde_json::Value) {
+    if st.oracle_failures.iter().any(|f| f.get("key") == v.get("key")) {
+        st.count("oracle_failures_same_key");
+    } else {
+        st.oracle_failure(v);
+    }
+}
+
 fn part_a(rng: &mut Rng, thorough: bool, st: &mut Stats, cw: &mut CaseWriter) {
     // ---- ValueStack ----
     let per = if thorough { 900 } else { 160 };
@@ -230,11 +239,11 @@ fn part_a(rng: &mut Rng, thorough: bool, st: &mut Stats, cw: &mut CaseWriter) {
                     st.count(&format!("vs.{}.{}", name, ob.0));
                 }
                 if let Some(m) = &msg {
-                    st.oracle_failure(json!({"key": format!("valuestack:cap{}:ped{}:{}", cap, ped, &m[..m.len().min(60)]),
+                    report_once(st, json!({"key": panic_key(&last_loc(), m), "instance": format!("valuestack cap={} pedantic={}", cap, ped),
                         "ops": ops.iter().map(vop_term).collect::<Vec<_>>(), "panic": m}));
                 }
                 if flen > cap {
-                    st.oracle_failure(json!({"key": format!("valuestack:cap{}:len-exceeds-capacity", cap), "len": flen}));
+                    report_once(st, json!({"key": "valuestack:len-exceeds-capacity", "cap": cap, "len": flen}));
                 }
                 if obs.iter().any(|o| o.0 != 0) {
                     st.nontrivial(&format!("{:?}{}{}", ops, cap, ped));
@@ -304,7 +313,7 @@ fn part_a(rng: &mut Rng, thorough: bool, st: &mut Stats, cw: &mut CaseWriter) {
         }
         if let Err(m) = &r {
             obs.push((9, 0, 0));
-            st.oracle_failure(json!({"key": format!("callstack:{}", &m[..m.len().min(60)]), "panic": m}));
+            report_once(st, json!({"key": panic_key(&last_loc(), m), "instance": "callstack op sequence", "panic": m}));
         }
         if obs.iter().any(|o| o.0 == 1 || o.0 == 2) {
             st.nontrivial(&format!("{:?}", ops));
@@ -376,14 +385,14 @@ fn part_a(rng: &mut Rng, thorough: bool, st: &mut Stats, cw: &mut CaseWriter) {
         let obs: Vec<(i64, i64)> = match &r {
             Ok(v) => v.iter().map(|(c, d)| (*c as i64, *d as i64)).collect(),
             Err(m) => {
-                st.oracle_failure(json!({"key": format!("decycler:{}", &m[..m.len().min(60)]), "panic": m, "ops": format!("{:?}", ops)}));
+                report_once(st, json!({"key": panic_key(&last_loc(), m), "instance": "decycler op sequence", "panic": m, "ops": format!("{:?}", ops)}));
                 vec![(9, 0)]
             }
         };
         for o in &obs {
             st.count(&format!("dec.outcome{}", o.0));
             if o.1 > 64 {
-                st.oracle_failure(json!({"key": "decycler:depth>64", "depth": o.1}));
+                report_once(st, json!({"key": "decycler:depth>64", "depth": o.1}));
             }
         }
         if obs.iter().any(|o| o.0 != 0) {
@@ -940,6 +949,35 @@ fn wline(s: &str) {
 thread_local! {
     static LAST_LOC: std::cell::RefCell<String> = std::cell::RefCell::new(String::new());
 }
+/// seed-independent, defect-specific key of a panic: location + message (first 60 chars, digit runs -> N so
+/// that lengths / indices quoted in the message do not make the key instance-specific)
+fn panic_key(loc: &str, msg: &str) -> String {
+    let mut norm = String::new();
+    let mut in_digits = false;
+    for c in msg.chars() {
+        if c.is_ascii_digit() {
+            if !in_digits {
+                norm.push('N');
+            }
+            in_digits = true;
+        } else {
+            in_digits = false;
+            norm.push(c);
+        }
+    }
+    let short: String = norm.chars().take(60).collect();
+    format!("panic:{}:{}", if loc.is_empty() { "?" } else { loc }, short)
+}
+fn last_loc() -> String {
+    LAST_LOC.with(|c| c.borrow().clone())
+}
+/// "<font>:<mutation id>" -> "<font>"
+fn base_font(instance: &str) -> &str {
+    instance.split(':').next().unwrap_or(instance)
+}
+fn repro_cmd(task: usize) -> String {
+    format!("VERIF_SEED={} C02_TRACE=1 C02_ONLY={} .cache/target/debug/c02 worker <tier> {} 16 {}", seed_from_env(), task, task % 16, task)
+}
 fn install_loc_hook() {
     std::panic::set_hook(Box::new(|info| {
         let loc = info.location().map(|l| format!("{}:{}", l.file().rsplit_once("/repo/").map(|x| x.1).unwrap_or(l.file()), l.line())).unwrap_or_default();
@@ -966,24 +1004,24 @@ impl Ctx {
         let r = catch(AssertUnwindSafe(f));
         let dt = t0.elapsed();
         if dt > Duration::from_secs(8) {
-            self.fail(name, &format!("budget: single call took {:.1}s", dt.as_secs_f64()), "budget");
+            let key = format!("budget:{}:{}", name, base_font(&self.key));
+            self.fail(name, key, &format!("single call took {:.1}s", dt.as_secs_f64()));
         }
         match r {
             Ok(v) => Some(v),
             Err(m) => {
-                let loc = LAST_LOC.with(|c| c.borrow().clone());
-                let short: String = m.chars().take(60).collect();
-                self.fail(name, &format!("{} @ {}", m, loc), &format!("{} @{}", short, loc));
+                let loc = last_loc();
+                self.fail(name, panic_key(&loc, &m), &format!("{} @ {}", m, loc));
                 None
             }
         }
     }
-    fn fail(&mut self, api: &str, msg: &str, short: &str) {
+    /// key: seed-independent defect id; the concrete instance goes into the other fields
+    fn fail(&mut self, api: &str, key: String, what: &str) {
         self.failures += 1;
-        let site = format!("{}:{}", api, short);
-        if !self.sites.contains(&site) {
-            wline(&format!("F {}", json!({"key": format!("{}:{}:{}", self.key, api, short), "panic": msg, "site": site, "task": self.task})));
-            self.sites.push(site);
+        if !self.sites.contains(&key) {
+            wline(&format!("F {}", json!({"key": key, "what": what, "api": api, "instance": self.key, "task": self.task, "repro": repro_cmd(self.task)})));
+            self.sites.push(key);
         }
     }
     fn group(&mut self, name: &str) {
@@ -1793,7 +1831,7 @@ fn run_task(w: &World, idx: usize, totals: &mut std::collections::BTreeMap<Strin
     match &w.tasks[idx] {
         Task::Run(i) => {
             let c = &w.runs[*i];
-            wline(&format!("B {} run:{}#{}", idx, c.what, i));
+            wline(&format!("B {} run-{}:#{}", idx, c.what, i));
             wline("A HintingInstance::new");
             let obs = exec_run_case(c);
             *evals += 1;
@@ -1821,7 +1859,7 @@ fn run_task(w: &World, idx: usize, totals: &mut std::collections::BTreeMap<Strin
         }
         Task::Comp(i) => {
             let c = &w.comps[*i];
-            wline(&format!("B {} comp:{}#{}", idx, c.what, i));
+            wline(&format!("B {} comp-{}:#{}", idx, c.what, i));
             wline("A outline_glyphs.get+draw");
             let obs = exec_comp_case(c);
             *evals += 1;
@@ -2033,9 +2071,11 @@ fn run_workers(tier: &str, thorough: bool, st: &mut Stats, cw_font: &mut Vec<(us
                         }
                         None => "abort".to_string(),
                     };
-                    let key = cur.as_ref().map(|c| c.1.clone()).unwrap_or_else(|| "worker-startup".into());
-                    st.oracle_failure(json!({"key": format!("{}:{}:{}", key, ws[k].last_api, why),
-                        "what": "worker process died while running this task (stack exhaustion / abort)"}));
+                    let inst = cur.as_ref().map(|c| c.1.clone()).unwrap_or_else(|| "worker-startup".into());
+                    let tnum = cur.as_ref().map(|c| c.0).unwrap_or(usize::MAX);
+                    fails.push(json!({"key": format!("abort:{}:{}", ws[k].last_api, base_font(&inst)),
+                        "what": format!("worker process died ({}) while running this task (stack exhaustion / abort)", why),
+                        "api": ws[k].last_api, "instance": inst, "task": tnum, "repro": repro_cmd(tnum)}));
                     st.count("fuzz.worker_aborts");
                     match cur {
                         Some((idx, _, _)) if restarts < 400 => {
@@ -2060,8 +2100,9 @@ fn run_workers(tier: &str, thorough: bool, st: &mut Stats, cw_font: &mut Vec<(us
                 if t0.elapsed() > budget {
                     ws[k].killed = true;
                     let _ = ws[k].child.kill();
-                    st.oracle_failure(json!({"key": format!("{}:{}:budget", key, ws[k].last_api),
-                        "what": format!("wall-clock budget of {}s exceeded (unbounded loop / runaway work)", budget.as_secs())}));
+                    fails.push(json!({"key": format!("budget:{}:{}", ws[k].last_api, base_font(&key)),
+                        "what": format!("wall-clock budget of {}s exceeded (unbounded loop / runaway work)", budget.as_secs()),
+                        "api": ws[k].last_api, "instance": key, "task": idx, "repro": repro_cmd(idx)}));
                     st.count("fuzz.budget_overruns");
                     if restarts < 400 {
                         restarts += 1;
@@ -2075,11 +2116,11 @@ fn run_workers(tier: &str, thorough: bool, st: &mut Stats, cw_font: &mut Vec<(us
             }
         }
     }
-    // one report per panic site: the failing input with the smallest task index (deterministic)
+    // one report per key (= per defect): the failing input with the smallest task index (deterministic)
     fails.sort_by_key(|v| v.get("task").and_then(|t| t.as_u64()).unwrap_or(u64::MAX));
     let mut seen: std::collections::BTreeMap<String, u64> = Default::default();
     for v in fails {
-        let site = v.get("site").and_then(|s| s.as_str()).unwrap_or("?").to_string();
+        let site = v.get("key").and_then(|s| s.as_str()).unwrap_or("?").to_string();
         let c = seen.entry(site.clone()).or_insert(0);
         *c += 1;
         if *c == 1 {
@@ -2091,7 +2132,7 @@ fn run_workers(tier: &str, thorough: bool, st: &mut Stats, cw_font: &mut Vec<(us
 }
 
 fn main() {
-    silence_panics();
+    install_loc_hook();
     let args: Vec<String> = std::env::args().collect();
     if args.get(1).map(|s| s == "worker").unwrap_or(false) {
         worker_main(&args);
